@@ -1357,7 +1357,7 @@ def param_override(case):
 # ---- reordering paths changes nothing (C12 b): operations that share components ------------------------------------------------
 
 def path_order_cases(tier):
-    return [{"family": f, "order": list(p)} for f in ("shared-body-model", "shared-enum-param", "shared-response")
+    return [{"family": f, "order": list(p)} for f in ("shared-body-model", "shared-enum-param", "shared-response", "shared-component-param")
             for p in itertools.permutations([0, 1, 2])]
 
 
@@ -1377,12 +1377,22 @@ def _path_family(name):
         paths = [("/a", {"get": {"operationId": "a", "parameters": [p({"default": "x"})], "responses": ok}}),
                  ("/b", {"get": {"operationId": "b", "parameters": [p({})], "responses": ok}}),
                  ("/c", {"get": {"operationId": "c", "parameters": [{"name": "m", "in": "query", "schema": {"$ref": "#/components/schemas/Mode"}}], "responses": ok}})]
+    elif name == "shared-component-param":
+        # a component parameter with an inline enum / inline object schema, used by operations under different paths: the names of
+        # the classes it gives rise to must not depend on which operation is met first
+        pr = {"$ref": "#/components/parameters/Sort"}
+        pf = {"$ref": "#/components/parameters/Filter"}
+        paths = [("/widgets", {"get": {"operationId": "list_widgets", "parameters": [pr], "responses": ok}}),
+                 ("/gadgets", {"get": {"operationId": "list_gadgets", "parameters": [pr, pf], "responses": ok}}),
+                 ("/gizmos", {"get": {"operationId": "list_gizmos", "parameters": [pf], "responses": ok}})]
     else:
         r = {"$ref": "#/components/responses/R"}
         paths = [("/a", {"get": {"operationId": "a", "responses": {"200": r}}}),
                  ("/b", {"get": {"operationId": "b", "responses": {"200": {"description": ""}, "404": r}}}),
                  ("/c", {"get": {"operationId": "c", "responses": {"200": {"description": "", "content": {"application/json": {"schema": note}}}}}})]
-    comps = {"responses": {"R": {"description": "r", "content": {"application/json": {"schema": {"type": "array", "prefixItems": [note], "items": note}}}}}}
+    params = {"Sort": {"name": "sort_order", "in": "query", "schema": {"type": "string", "enum": ["asc", "desc"]}},
+              "Filter": {"name": "filter", "in": "query", "schema": {"type": "object", "properties": {"q": {"type": "string"}}}}}
+    comps = {"parameters": params, "responses": {"R": {"description": "r", "content": {"application/json": {"schema": {"type": "array", "prefixItems": [note], "items": note}}}}}}
     return paths, schemas, comps
 
 
@@ -1398,8 +1408,10 @@ def path_order(case):
         _PATH_SIGS[case["family"]] = tree([0, 1, 2])
     f0, e0 = _PATH_SIGS[case["family"]]
     f1, e1 = tree(case["order"])
-    if e0 or e1:
-        return None       # the clause is about documents that generate without diagnostics
+    if e0:
+        return f"the probe family {case['family']} no longer generates without diagnostics: {[(e.header, (e.detail or '')[:60]) for e in e0][:1]}"
+    if e1:
+        return f"paths in order {case['order']}: diagnostics appear that the declaration order does not have: {[(e.header, (e.detail or '')[:60]) for e in e1][:1]}"
     diff = sorted(k for k in set(f0) | set(f1) if f0.get(k) != f1.get(k))
     if diff:
         import difflib
